@@ -23,8 +23,9 @@ Trace == ndJsonDeserialize("trace.ndjson")
 JT == JsonDeserialize("jumptable.json")
 
 VARIABLES l, bad, fst, limit,
-          mcase                  \* the memory-operand case of the current run (classes of EvmGasGen), op "" if none
-tvars == <<gvars, l, bad, fst, limit, mcase>>
+          mcase,                 \* the memory-operand case of the current run (classes of EvmGasGen), op "" if none
+          wpend                  \* the announced 2^64-boundary case that has not ended yet (EvmGasWrap), <<>> if none
+tvars == <<gvars, l, bad, fst, limit, mcase, wpend>>
 
 OpIdx(op) == {i \in 1..Len(JT.ops) : JT.ops[i].op = op}
 Known(op) == OpIdx(op) # {}
@@ -123,6 +124,16 @@ JudgePrecompile(e) ==
   Tag(Le(e.gasLeft, e.gas), "Inv.precompile-gas-bound") \o
   Tag(e.panic \/ ~e.failed \/ e.gasLeft = <<>> \/ Le(e.gasLeft, e.gas), "Ref.precompile-failure")
 
+(* 2^64-boundary cases (EvmGasWrap, run in a child process under an address-space limit): every announced *)
+(* case must end - the process that executed it must not die - and must end as an ordinary out-of-gas      *)
+(* failure without having resized memory: its true cost is beyond any gas limit                            *)
+Unended == IF wpend = <<>> THEN <<>> ELSE <<"Inv.host-death:" \o wpend.op>>
+JudgeWrapEnd(e) ==
+  Tag(wpend # <<>> /\ wpend.index = e.index, "Proj.wrap-unbalanced") \o
+  Tag(~e.panic, "Inv.host-panic:" \o e.op) \o
+  Tag(e.failed /\ e.err \in {"oog", "gasoverflow"}, "Inv.unaffordable-step-completed:" \o e.op) \o
+  Tag(e.msize <= 64, "Inv.memory-resized-without-charge:" \o e.op)
+
 Judge(e) ==
   CASE e.event = "Begin" -> JudgeBegin(e)
     [] e.event = "Enter" -> JudgeEnter(e)
@@ -131,9 +142,11 @@ Judge(e) ==
     [] e.event = "Fault" -> JudgeFault(e)
     [] e.event = "End"   -> JudgeEnd(e)
     [] e.event = "Precompile" -> JudgePrecompile(e)
+    [] e.event \in {"WrapBegin", "WrapDone"} -> Unended
+    [] e.event = "WrapEnd" -> JudgeWrapEnd(e)
     [] OTHER -> <<"Proj.unknown-event">>
 
-TraceInit == l = 1 /\ bad = <<>> /\ fst = <<>> /\ limit = <<>> /\ mcase = [op |-> "", a |-> "", b |-> "", c |-> ""] /\ frames = <<>> /\ burnt = 0 /\ ended = TRUE
+TraceInit == l = 1 /\ bad = <<>> /\ fst = <<>> /\ limit = <<>> /\ mcase = [op |-> "", a |-> "", b |-> "", c |-> ""] /\ wpend = <<>> /\ frames = <<>> /\ burnt = 0 /\ ended = TRUE
 
 TraceNext ==
   /\ l <= Len(Trace)
@@ -142,6 +155,7 @@ TraceNext ==
          j == Judge(e)
      IN /\ bad' = bad \o [i \in 1..Len(j) |-> <<l, e.event, j[i]>>]
         /\ mcase' = (IF e.event = "Begin" THEN e.mcase ELSE mcase)
+        /\ wpend' = (IF e.event = "WrapBegin" THEN e ELSE IF e.event \in {"WrapEnd", "WrapDone"} THEN <<>> ELSE wpend)
         /\ CASE e.event = "Begin" -> limit' = e.gas /\ fst' = <<>>
              [] e.event = "Enter" -> fst' = Append(fst, [depth |-> e.depth, gas |-> e.gas]) /\ UNCHANGED limit
              [] e.event = "Exit"  -> fst' = (IF fst = <<>> THEN fst ELSE SubSeq(fst, 1, Len(fst) - 1)) /\ UNCHANGED limit
